@@ -1213,7 +1213,7 @@ def run_one(ctx, c):
 
 def generate(ctx: Ctx, scale: int, rng):
     n = lambda q: max(1, q * scale)
-    for i in range(n(420)):
+    for i in range(n(1100)):
         size = rng.choice(["tiny", "normal", "normal", "normal", "large"])
         c = gen_message(rng, size=size)
         try:
@@ -1225,7 +1225,7 @@ def generate(ctx: Ctx, scale: int, rng):
             ctx.count("gen.not-wellformed")
             continue
         run_one(ctx, c)
-    for i in range(n(4)):
+    for i in range(n(6)):
         c = gen_message(rng, size="huge", origin_mode=rng.choice([0, 5, 5]))
         try:
             c = normalise(c)
@@ -1233,7 +1233,7 @@ def generate(ctx: Ctx, scale: int, rng):
             continue
         if wellformed(c):
             run_one(ctx, c)
-    for i in range(n(150)):
+    for i in range(n(400)):
         try:
             c = gen_update(rng)
         except Exception:
@@ -1253,7 +1253,7 @@ def generate(ctx: Ctx, scale: int, rng):
                                 rd[f] = hexl(absolute(L(rd[f]), org))
             c2["origin"] = None
             run_one(ctx, c2)
-    for i in range(n(500)):
+    for i in range(n(1500)):
         c = model_exact_message(rng)
         try:
             c = normalise(c)
@@ -1278,7 +1278,7 @@ def generate(ctx: Ctx, scale: int, rng):
     FL = [0, 1, 0xF, 0x10, 0x7800, 0x2800, 0x8000, 0xFFFF, 0x87FF, 0x0800, 0x7FFF]
     EF = [0, 0x00800000, 0xFF000000, 0x01000000, 0xFFFFFFFF, 0x00FF0000, 0x0000FFFF, 0x10008000]
     V = [0, 1, 15, 16, 17, 255, 256, 4095, 4096, 5000, 23]
-    for i in range(n(150)):
+    for i in range(n(400)):
         hc = {"kind": "hdr", "flags": rng.choice(FL + [rng.below(65536)]), "ednsflags": rng.choice(EF + [rng.below(2 ** 32)]),
               "value": rng.choice(V + [rng.below(4200)])}
         run_one(ctx, hc)
@@ -1309,14 +1309,21 @@ def replay(ctx: Ctx, obj: dict):
 
 
 LEVEL = {
-    "text": "Lean 4 theorems over an executable model of dns/renderer.py, Rdataset.to_wire, Message.to_wire and _WireReader.read: "
-            "header counts written = records rendered = Message.section_count; the renderer only appends to the buffer and the "
-            "compression table, every table entry and every emitted pointer targets an offset strictly before the position it is "
-            "written at and at most 0x3FFF, at which the suffix decodes (up to ASCII case); rcode/opcode header codecs are exact "
-            "inverses. The model is tied to the code by a differential correspondence check on rendered octets, parsed messages, "
-            "section counts and header codecs, and by constants/tables regenerated from the working tree.",
+    "text": "Lean 4 theorems over an executable model of dns/renderer.py, Rdataset.to_wire, Message.to_wire and _WireReader.read "
+            "(opaque RDATA + explicit NS/CNAME/PTR/MX/SOA shapes): parse_render_partial — for every message with absolute names, any "
+            "opcode but UPDATE, with or without OPT (no TSIG/padding), any number of questions/record sets/records and any name-sharing "
+            "pattern, parsing the rendering returns the message (same id, flags, opcode, rcode incl. extended, EDNS state, record sets and "
+            "rdatas in order, no trailing octets) up to the ASCII case of compressed names; counts_exact — the header counts are the records "
+            "rendered (= section_count); compression_sound — in every rendering, with or without truncation, every compression-table entry "
+            "(every possible pointer target) lies before the end of the buffer, at most at 0x3FFF, and decodes with the library's own "
+            "strictly-backward-pointer decoder to its suffix up to case, and every name written decodes from its own offset to itself; "
+            "rcode/opcode header codecs are exact inverses (complete tables). Update forms, TSIG, padding, origins and byte-identical "
+            "re-rendering are covered by the differential correspondence check (rendered octets, parsed messages, section counts, header "
+            "codecs; model == implementation on every generated case) and by the direct oracle with an independent wire walker.",
     "note": "Trusted: Lean kernel + propext/Classical.choice/Quot.sound; the statements in lean/Props/C03.lean; the correspondence "
-            "harness and its generators; harness/extract_C03.py. RDATA without compressible names is opaque octets; HMAC abstract.",
-    "technique": "Lean 4 proof (induction over the rendering fold, compression-table invariant) + model-vs-implementation correspondence",
+            "harness and its generators; harness/extract_C03.py. RDATA without compressible names is opaque octets; HMAC abstract. "
+            "Imports the C01 compression lemma (Proofs/NameCompress.lean: loop_sound).",
+    "technique": "Lean 4 proof (induction over the rendering fold with a compression-table invariant; offset-relative renderer; "
+                 "record-by-record parser simulation) + model-vs-implementation correspondence",
     "design_ref": "DESIGN.md §7 C03",
 }
